@@ -86,6 +86,37 @@ for it in range(R.n(4, 20)):
     h = stg.voltage.raw_utils.read_header(p3 + '.0000.raw')
     R.check('record/second-recording-default-header-starts-afresh', dict(c, array=array), int(h['PKTIDX']) == 0 and int(h['PKTSTART']) == 0, {k: h[k] for k in ('PKTIDX', 'PKTSTART', 'PKTSTOP')})
 
+# the caller's header dictionary, reused for a second recording (with and without the template): not modified, block numbering restarts
+for tmpl in (False, True):
+    for array in (False, True):
+        hd = {'TELESCOP': 'GBT', 'MYCARD': 5}
+        be = backend_for(streams_ops(R.seed + 11, array))
+        pa, pb = os.path.join(R.tmp, f'd{int(tmpl)}{int(array)}a'), os.path.join(R.tmp, f'd{int(tmpl)}{int(array)}b')
+        be.record(output_file_stem=pa, num_blocks=2, length_mode='num_blocks', header_dict=hd, load_template=tmpl, verbose=False)
+        ok1 = hd == {'TELESCOP': 'GBT', 'MYCARD': 5}
+        be.record(output_file_stem=pb, num_blocks=2, length_mode='num_blocks', header_dict=hd, load_template=tmpl, verbose=False)
+        h = stg.voltage.raw_utils.read_header(pb + '.0000.raw')
+        R.check('record/caller-dictionary-reused', dict(load_template=tmpl, array=array), ok1 and hd == {'TELESCOP': 'GBT', 'MYCARD': 5} and int(h['PKTIDX']) == 0,
+                [sorted(hd), h.get('PKTIDX')])
+
+# injection onto existing RAW with a channelised-noise estimate seeded beforehand: recording keeps the estimate, two runs write the same bytes
+pin = os.path.join(R.tmp, 'inj_in')
+backend_for(streams_ops(R.seed + 21, False)).record(output_file_stem=pin, num_blocks=3, length_mode='num_blocks', verbose=False)
+outs, kept = [], True
+for run in range(2):
+    a = stg.voltage.Antenna(sample_rate=3e6, fch1=6e9, ascending=True, num_pols=2, seed=R.seed + 31)
+    for s in a.streams:
+        s.add_constant_signal(f_start=6.0005e9, drift_rate=0, level=0.2)
+    fb = stg.voltage.PolyphaseFilterbank(num_taps=4, num_branches=16)
+    fb.estimate_channelized_stds(seed=R.seed + 41)
+    est = np.array(fb.channelized_stds, dtype=float).copy()
+    inj = stg.voltage.RawVoltageBackend.from_data(pin, a, filterbank=fb, start_chan=0, num_subblocks=2)
+    po = os.path.join(R.tmp, f'inj_out{run}')
+    inj.record(output_file_stem=po, num_blocks=3, length_mode='num_blocks', verbose=False)
+    kept = kept and all(np.array_equal(np.asarray(inj.filterbank[0][p].channelized_stds, dtype=float), est) for p in range(2))
+    outs.append(raw_bytes(po))
+R.check('injection/seeded-estimate-kept-and-runs-identical', dict(seed=R.seed), kept and len(outs[0]) >= 1 and outs[0] == outs[1], [len(x) for x in outs[0]])
+
 # copies
 base = stg.Frame(fchans=64, tchans=8, df=2.79 * u.Hz, dt=18.25 * u.s, fch1=6095.2 * u.MHz, seed=R.seed + 3)
 base.add_noise(5)
